@@ -1777,3 +1777,146 @@ Proof.
     rewrite (bindM_ok _ _ _ _ _ Hloop). cbn [app]. rewrite str_new_run, H2. finish_ret. }
   inversion Hc; subst; apply Hrun; norm_state; try congruence; lia.
 Qed.
+
+(* ------------------------------------------- named instances and corollaries *)
+Corollary string_upcase_refines s sid t :
+  stack_ok s -> tget (strs (st s)) sid = Some t ->
+  returns (run_builtin string_upcase [VStr sid] s) s (VStr (next_id (st s)))
+    (snd (new_str (st s) (str_to_uppercase t))).
+Proof. exact (string_case_refines str_to_uppercase s sid t). Qed.
+Corollary string_downcase_refines s sid t :
+  stack_ok s -> tget (strs (st s)) sid = Some t ->
+  returns (run_builtin string_downcase [VStr sid] s) s (VStr (next_id (st s)))
+    (snd (new_str (st s) (str_to_lowercase t))).
+Proof. exact (string_case_refines str_to_lowercase s sid t). Qed.
+Corollary string_foldcase_refines s sid t :
+  stack_ok s -> tget (strs (st s)) sid = Some t ->
+  returns (run_builtin string_foldcase [VStr sid] s) s (VStr (next_id (st s)))
+    (snd (new_str (st s) (str_to_lowercase t))).
+Proof. exact (string_case_refines str_to_lowercase s sid t). Qed.
+
+(* substring = string-copy with exactly three arguments (prelude.scm) *)
+Corollary substring_refines s sid t x y :
+  stack_ok s -> tget (strs (st s)) sid = Some t -> imm x -> imm y ->
+  let r := run_builtin (substring 3) [VStr sid; x; y] s in
+  match as_index x, as_index y with
+  | Some i, Some j =>
+      if range_ok t (Some i) (Some j)
+      then returns r s (VStr (next_id (st s))) (snd (new_str (st s) (spec_sub t i j)))
+      else fails r s
+  | _, _ => fails r s
+  end.
+Proof.
+  intros Hok Hs Hx Hy.
+  pose proof (string_copy_refines s sid t (Some x) (Some y) Hok Hs Hx Hy) as H.
+  cbn [range_args range_decode range_end_arg] in H. cbn [substring N.eqb Pos.eqb].
+  destruct (as_index x), (as_index y); exact H.
+Qed.
+
+Lemma returns_not_fails r s v x : returns r s v x -> ~ fails r s.
+Proof. intros (s' & -> & _) (e & msg & s'' & H & _). discriminate. Qed.
+
+Corollary string_ref_errors_iff_invalid_vm s sid t iv i :
+  stack_ok s -> tget (strs (st s)) sid = Some t -> imm iv -> as_index iv = Some i ->
+  (fails (run_builtin string_ref [VStr sid; iv] s) s <-> len t <= i).
+Proof.
+  intros Hok Hs Hi Hidx. pose proof (string_ref_refines s sid t iv Hok Hs Hi) as H.
+  cbn zeta in H. rewrite Hidx in H. unfold spec_ref in H. rewrite <- nth_error_None_len.
+  destruct (nth_error t (N.to_nat i)); split; intro H'; try congruence; try exact H.
+  exfalso. exact (returns_not_fails _ _ _ _ H H').
+Qed.
+
+Corollary string_set_errors_iff_invalid s sid t iv i c :
+  stack_ok s -> tget (strs (st s)) sid = Some t -> imm iv -> as_index iv = Some i ->
+  (fails (run_builtin string_set [VStr sid; iv; VChar c] s) s <-> len t <= i).
+Proof.
+  intros Hok Hs Hi Hidx. pose proof (string_set_refines s sid t iv c Hok Hs Hi) as H.
+  cbn zeta in H. rewrite Hidx in H.
+  destruct (N.ltb_spec i (len t)) as [Hlt|Hge]; split; intro H'; try lia; try exact H.
+  exfalso. exact (returns_not_fails _ _ _ _ H H').
+Qed.
+
+Corollary string_copy_errors_iff_invalid s sid t a b start end_ :
+  stack_ok s -> tget (strs (st s)) sid = Some t -> opt_imm a -> opt_imm b ->
+  range_decode a b = Some (start, end_) ->
+  (fails (run_builtin string_copy (VStr sid :: range_args a b) s) s <-> range_ok t start end_ = false).
+Proof.
+  intros Hok Hs Ha Hb Hd. pose proof (string_copy_refines s sid t a b Hok Hs Ha Hb) as H.
+  cbn zeta in H. rewrite Hd in H.
+  destruct (range_ok t start end_); split; intro H'; try congruence; try exact H.
+  exfalso. exact (returns_not_fails _ _ _ _ H H').
+Qed.
+
+Corollary string_fill_errors_iff_invalid s sid t c a b start end_ :
+  stack_ok s -> tget (strs (st s)) sid = Some t -> opt_imm a -> opt_imm b ->
+  range_decode a b = Some (start, end_) ->
+  (fails (run_builtin string_fill (VStr sid :: VChar c :: range_args a b) s) s
+   <-> range_ok t start end_ = false).
+Proof.
+  intros Hok Hs Ha Hb Hd. pose proof (string_fill_refines s sid t c a b Hok Hs Ha Hb) as H.
+  cbn zeta in H. rewrite Hd in H.
+  destruct (range_ok t start end_); split; intro H'; try congruence; try exact H.
+  exfalso. exact (returns_not_fails _ _ _ _ H H').
+Qed.
+
+(* no argument vector of immediates makes the index/range procedures panic *)
+Corollary string_ref_no_panic s sid t iv :
+  stack_ok s -> tget (strs (st s)) sid = Some t -> imm iv ->
+  no_panic (run_builtin string_ref [VStr sid; iv] s).
+Proof.
+  intros Hok Hs Hi. pose proof (string_ref_refines s sid t iv Hok Hs Hi) as H. cbn zeta in H.
+  destruct (as_index iv) as [i|]; [destruct (spec_ref t i)|];
+    eauto using returns_no_panic, fails_no_panic.
+Qed.
+
+Corollary string_set_no_panic s sid t iv c :
+  stack_ok s -> tget (strs (st s)) sid = Some t -> imm iv ->
+  no_panic (run_builtin string_set [VStr sid; iv; VChar c] s).
+Proof.
+  intros Hok Hs Hi. pose proof (string_set_refines s sid t iv c Hok Hs Hi) as H. cbn zeta in H.
+  destruct (as_index iv) as [i|]; [destruct (i <? len t)|];
+    eauto using returns_no_panic, fails_no_panic.
+Qed.
+
+Corollary string_copy_no_panic s sid t a b :
+  stack_ok s -> tget (strs (st s)) sid = Some t -> opt_imm a -> opt_imm b ->
+  no_panic (run_builtin string_copy (VStr sid :: range_args a b) s).
+Proof.
+  intros Hok Hs Ha Hb. pose proof (string_copy_refines s sid t a b Hok Hs Ha Hb) as H. cbn zeta in H.
+  destruct (range_decode a b) as [[st e]|]; [destruct (range_ok t st e)|];
+    eauto using returns_no_panic, fails_no_panic.
+Qed.
+
+Corollary string_fill_no_panic s sid t c a b :
+  stack_ok s -> tget (strs (st s)) sid = Some t -> opt_imm a -> opt_imm b ->
+  no_panic (run_builtin string_fill (VStr sid :: VChar c :: range_args a b) s).
+Proof.
+  intros Hok Hs Ha Hb. pose proof (string_fill_refines s sid t c a b Hok Hs Ha Hb) as H. cbn zeta in H.
+  destruct (range_decode a b) as [[st e]|]; [destruct (range_ok t st e)|];
+    eauto using returns_no_panic, fails_no_panic.
+Qed.
+
+Corollary integer_to_char_no_panic s n :
+  stack_ok s -> no_panic (run_builtin integer_to_char [VNum n] s).
+Proof.
+  intro Hok. pose proof (integer_to_char_refines s n Hok) as H. cbn zeta in H.
+  destruct (if num_is_integer n then num_to_u32 n else None) as [u|]; [destruct (is_scalar u)|];
+    eauto using returns_no_panic, fails_no_panic.
+Qed.
+
+(* the pure cores never panic, for any text and any index / range arguments that a
+   caller can produce *)
+Corollary cores_no_panic t :
+  (forall i, exists r, string_ref_core t i = Ok r \/ string_ref_core t i = Err E_OTHER) /\
+  (forall i c, exists r, string_set_core t i c = Ok r \/ string_set_core t i c = Err E_OTHER) /\
+  (forall a b, args_ok a b ->
+     exists r, substring_core t a b = Ok r \/ substring_core t a b = Err E_OTHER) /\
+  (forall a b c, args_ok a b ->
+     exists r, string_fill_core t a b c = Ok r \/ string_fill_core t a b c = Err E_OTHER).
+Proof.
+  repeat split.
+  - intro i. rewrite string_ref_core_spec. destruct (spec_ref t i); [eexists; left; reflexivity | exists 0; right; reflexivity].
+  - intros i c. rewrite string_set_core_spec. destruct (i <? len t); [eexists; left; reflexivity | exists []; right; reflexivity].
+  - intros a b H. rewrite (substring_core_spec t a b H). destruct (range_ok t a b); [eexists; left; reflexivity | exists []; right; reflexivity].
+  - intros a b c H. rewrite (string_fill_core_spec t a b c H). destruct (range_ok t a b); [eexists; left; reflexivity | exists []; right; reflexivity].
+Qed.
